@@ -187,3 +187,23 @@ func c18TempSpellings(c *Ctx) {
 		os.RemoveAll(filepath.Dir(dir))
 	}
 }
+
+// c18ColonAlias: keys that differ only in ':' — the storage strips ':' from file names (it is not allowed in file names on
+// Windows), so "a:b" and "ab" are one file. By the letter of C18 ("a get returns exactly the last value set for that key")
+// this is a deviation; it is the library's design and is recorded as known finding F38.
+func c18ColonAlias(c *Ctx) {
+	id := "colon-alias#0"
+	if c.Skip(id) {
+		return
+	}
+	dir := filepath.Join(c.ScratchDir(), "store")
+	st, _ := util.NewFileStorage(dir)
+	st.Set("a:b.txt", []byte("one"))
+	st.Set("ab.txt", []byte("two"))
+	got, err := st.Get("a:b.txt")
+	if err != nil || string(got) != "one" {
+		c.Violate("storage keys that differ only in ':' share one file", id, []string{`Set("a:b.txt","one")`, `Set("ab.txt","two")`, `Get("a:b.txt")`}, "one", fmt.Sprintf("%q err=%v", got, err))
+	}
+	c.Count(id, true, "stream:colon-alias")
+	os.RemoveAll(filepath.Dir(dir))
+}
